@@ -361,7 +361,7 @@ def split_checks(hists, ops=("pfx", "cor")):
 def add_cor_offsets(hists):
     """pass 1 (generation time): run each history with `cor` replaced by `img`, ask the Lean model for the field map of each
     image and write the structural byte offsets into the `cor` op, so that the final histories are self-contained"""
-    exe = os.path.join(core.BUILD, HARNESS)
+    exe = core.harness_exe(HARNESS)
 
     def work(h):
         idx = [i for i, l in enumerate(h) if l.startswith("cor ")]
